@@ -712,3 +712,37 @@ def run_witnesses(ctx, findings, witness_fn):
             ctx.known_hits[fid] = ctx.known_hits.get(fid, 0) + 1
         else:
             ctx.notes.append(f"known finding {fid} no longer reproduces on its witness")
+
+
+def eval_pred(ctx, pred, arglines):
+    """arglines: list of already encoded argument strings; returns list of bools"""
+    if not arglines:
+        return []
+    res = run_sharded("model", ctx.overlay, [pred + " " + a for a in arglines])
+    return [r == "T" for r in res]
+
+
+def record_failures(ctx, suite, pred, ok, describe, kf=None, arglines=None):
+    """ok: list of bools; describe(i) -> dict for the replay; kf: list of (id, classifier)
+    evaluated on the same argument lines"""
+    bad = [i for i, b in enumerate(ok) if not b]
+    if bad and kf and arglines:
+        for fid, cls in kf:
+            if not bad:
+                break
+            cres = eval_pred(ctx, cls, [arglines[i] for i in bad])
+            still = []
+            for i, r in zip(bad, cres):
+                if r:
+                    ctx.known_hits[fid] = ctx.known_hits.get(fid, 0) + 1
+                else:
+                    still.append(i)
+            bad = still
+    s = ctx.suites.setdefault(suite, {"cases": 0})
+    s["predicate"] = pred
+    s["predicate_failures"] = s.get("predicate_failures", 0) + len(bad)
+    for i in bad[:20]:
+        d = {"kind": "predicate-failure", "suite": suite, "predicate": pred}
+        d.update(describe(i))
+        ctx.violation(**d)
+    return bad
